@@ -69,8 +69,8 @@ func c07(p *core.Program, r *core.Report) {
 			got := map[string]bool{}
 			eng.WalkReached(top, func(act *eng.CEResult, in ssa.Instruction) {
 				if st, ok := in.(*ssa.Store); ok && isTypeField(st.Addr) {
-					if c, isC := st.Val.(*ssa.Const); isC && c.Value != nil && c.Value.Kind() == constant.String {
-						got[constant.StringVal(c.Value)] = true
+					if v := act.Of(st.Val); v.K == eng.CConst && v.C.Kind() == constant.String {
+						got[constant.StringVal(v.C)] = true
 					} else {
 						got["?"] = true
 					}
@@ -110,6 +110,52 @@ func c07(p *core.Program, r *core.Report) {
 			if got := decode(n); len(got) > 0 {
 				r.Bad(r1, rel+".Decode/"+n, p.Pos(dfn.Pos()), fmt.Sprintf("decoder accepts type name %q (-> %v) that RFC 7946 does not define for geometries", n, sortedKeysB(got)))
 			}
+		}
+	}
+
+	// ---- rule 1b: only a Point is written as an empty list because it is empty
+	const r1b = "empty-shortcut-point-only"
+	r.Rule(r1b, "in the encoder (encode and the helpers of package geojson it reaches) Empty() is consulted on a *geom.Point only: a Point has no nesting, so [] is all there is to say about an empty one, but a MultiLineString of two empty lines is [[],[]] and a Polygon of one empty ring [[]] - replacing the coordinates of any geometry that `is empty` by an empty list changes the nesting that is read back", 1)
+	if efn != nil {
+		seenF := map[*ssa.Function]bool{}
+		var work []*ssa.Function
+		work = append(work, efn)
+		n := 0
+		for len(work) > 0 {
+			fn := work[0]
+			work = work[1:]
+			if seenF[fn] || core.FnPkgPath(fn) != mod+"/"+rel {
+				continue
+			}
+			seenF[fn] = true
+			work = append(work, fn.AnonFuncs...)
+			for _, c := range eng.Calls(fn) {
+				if g := eng.StaticCallee(c); g != nil {
+					work = append(work, g)
+				}
+				o := eng.CalleeObj(c)
+				if o == nil || o.Name() != "Empty" || o.Pkg() == nil || o.Pkg().Path() != mod {
+					continue
+				}
+				n++
+				var recvT types.Type
+				if c.Common().IsInvoke() {
+					recvT = c.Common().Value.Type()
+				} else if len(c.Common().Args) > 0 {
+					recvT = c.Common().Args[0].Type()
+				}
+				isPoint := recvT != nil && (strings.HasSuffix(recvT.String(), "go-geom.Point") || strings.HasSuffix(recvT.String(), "go-geom.geom0"))
+				if !c.Common().IsInvoke() && len(c.Common().Args) > 0 {
+					if fa, ok := c.Common().Args[0].(*ssa.FieldAddr); ok {
+						// promoted method: &p.geom0 with p a *geom.Point
+						isPoint = strings.HasSuffix(fa.X.Type().String(), "go-geom.Point")
+					}
+				}
+				r.Check(isPoint, r1b, fmt.Sprintf("%s/Empty#%d", short(fn), n), p.Pos(c.Pos()), true, "Empty() of a *geom.Point", "Empty() is consulted on a "+fmt.Sprint(recvT)+": the emptiness shortcut reaches geometries whose empty parts have structure")
+			}
+		}
+		if n == 0 {
+			r.OK(r1b, rel+".encode/no-empty-shortcut", p.Pos(efn.Pos()), true, "the encoder has no emptiness shortcut")
 		}
 	}
 
